@@ -135,8 +135,9 @@ func (t *tables) coqOps(o *state.OpsMCPState) string {
 
 func (t *tables) coqState(s state.ClusterState) string {
 	return vh.App("CS", vh.N(uint64(s.SchemaVersion)), str(s.ClusterID), vh.N(s.Revision), vh.N(s.AppliedRaftIndex), tm(s.UpdatedAt),
-		coqConfig(s.Config), vh.ListOf(s.Controllers, coqVoter), vh.ListOf(s.Nodes, coqNode), vh.ListOf(s.Slots, coqAssign),
-		vh.ListOf(s.NodeHealthReports, coqHealth), coqTable(s.HashSlots), vh.ListOf(s.Tasks, coqTask),
+		t.share(coqConfig(s.Config)), t.share(vh.ListOf(s.Controllers, coqVoter)), t.share(vh.ListOf(s.Nodes, func(n state.Node) string { return t.share(coqNode(n)) })),
+		t.share(vh.ListOf(s.Slots, coqAssign)), t.share(vh.ListOf(s.NodeHealthReports, coqHealth)), t.share(coqTable(s.HashSlots)),
+		t.share(vh.ListOf(s.Tasks, func(k state.ReconcileTask) string { return t.share(coqTask(k)) })),
 		t.coqSB(s.ScheduledBackup), t.coqOps(s.OpsMCP), str(s.Checksum))
 }
 
@@ -175,9 +176,10 @@ func (t *tables) coqCommand(c command.Command) string {
 		exp = vh.Some(vh.N(*c.ExpectedRevision))
 	}
 	initS := opt(c.Init != nil, func() string {
-		return vh.App("IC", str(c.Init.ClusterID), coqConfig(c.Init.Config), vh.ListOf(c.Init.Controllers, coqVoter), vh.ListOf(c.Init.Nodes, coqNode))
+		return vh.App("IC", str(c.Init.ClusterID), t.share(coqConfig(c.Init.Config)), t.share(vh.ListOf(c.Init.Controllers, coqVoter)),
+			t.share(vh.ListOf(c.Init.Nodes, func(n state.Node) string { return t.share(coqNode(n)) })))
 	})
-	node := opt(c.Node != nil, func() string { return coqNode(*c.Node) })
+	node := opt(c.Node != nil, func() string { return t.share(coqNode(*c.Node)) })
 	promo := opt(c.ControllerVoterPromotion != nil, func() string {
 		p := c.ControllerVoterPromotion
 		prev := vh.None()
@@ -187,7 +189,7 @@ func (t *tables) coqCommand(c command.Command) string {
 		return vh.App("PR", vh.N(p.TargetNodeID), str(p.TargetAddr), prev, vh.N(p.ObservedConfigIndex), u64s(p.ObservedVoters))
 	})
 	assign := opt(c.Assignment != nil, func() string { return coqAssign(*c.Assignment) })
-	task := opt(c.Task != nil, func() string { return coqTask(*c.Task) })
+	task := opt(c.Task != nil, func() string { return t.share(coqTask(*c.Task)) })
 	phase := opt(c.SlotReplicaMovePhase != nil, func() string {
 		p := c.SlotReplicaMovePhase
 		return vh.App("PH", str(p.TaskID), vh.N(uint64(p.SlotID)), vh.N(p.ConfigEpoch), vh.N(uint64(p.Attempt)), vh.N(uint64(p.ExpectedPhaseIndex)),
@@ -207,7 +209,7 @@ func (t *tables) coqCommand(c command.Command) string {
 			vh.N(p.ParticipantNodeID), vh.N(uint64(p.ParticipantAttempt)), str(string(p.Status)), str(p.Err))
 	})
 	health := opt(c.NodeHealth != nil, func() string { return coqHealth(*c.NodeHealth) })
-	hs := opt(c.HashSlots != nil, func() string { return coqTable(*c.HashSlots) })
+	hs := opt(c.HashSlots != nil, func() string { return t.share(coqTable(*c.HashSlots)) })
 	return vh.App("Cmd", str(string(c.Kind)), tm(c.IssuedAt), exp, initS, node, vh.ListOf(c.Controllers, coqVoter), promo, assign, task,
 		phase, commit, result, progress, health, hs, t.coqSB(normalizedSB(c.ScheduledBackup)), t.coqOps(normalizedOps(c.OpsMCP)))
 }
